@@ -17,7 +17,7 @@ import (
 	"verif/mon"
 )
 
-var c08Scripts = []string{"expire", "renew-errors", "demote", "handoff-connected", "handoff-chain", "handoff-unknown", "handoff-disconnected", "non-candidate", "cluster-id-mismatch", "cluster-id-adopt", "acquire-error", "primary-info-stale", "static"}
+var c08Scripts = []string{"expire", "renew-errors", "demote", "handoff-connected", "handoff-chain", "handoff-unknown", "handoff-disconnected", "handoff-fails-then-loss", "non-candidate", "cluster-id-mismatch", "cluster-id-adopt", "acquire-error", "primary-info-stale", "static"}
 
 func init() {
 	register(&core.Check{
@@ -37,7 +37,7 @@ func init() {
 		Run:         runC08,
 		Floors: func(tier string) map[string]int {
 			m := map[string]int{"probes": 500, "loss_by_expiry": 2, "loss_by_renew_errors": 2, "loss_by_demote": 2, "loss_by_handoff": 2, "foreign_cluster_refused": 2,
-				"next_call_after_loss_checked": 8, "stream_after_loss_refused": 4, "write_after_loss_refused": 4, "lease_closed_after_loss": 6, "handoff_refused": 4, "noncandidate_never_acquired": 2}
+				"next_call_after_loss_checked": 8, "stream_after_loss_refused": 4, "write_after_loss_refused": 4, "lease_closed_after_loss": 6, "handoff_failed_still_primary": 2, "handoff_refused": 4, "noncandidate_never_acquired": 2}
 			for _, s := range c08Scripts {
 				m["script_"+s] = 1
 			}
@@ -236,6 +236,9 @@ func runC08(c *core.Case) {
 	ttl := []time.Duration{300 * time.Millisecond, 2500 * time.Millisecond, 600 * time.Millisecond}[variant%3]
 	if script != "renew-errors" && script != "expire" {
 		ttl = 300 * time.Millisecond
+	}
+	if script == "handoff-fails-then-loss" {
+		ttl = 3 * time.Second
 	}
 	cl.Svc.TTL = ttl
 	o := newC08Obs(c, cl)
@@ -456,6 +459,68 @@ func runC08(c *core.Case) {
 				c.Violate("C08/primary-lost-on-refused-handoff", "n0 stopped being primary after a refused handoff", detail())
 			}
 		}
+	case "handoff-fails-then-loss":
+		// A handoff is requested and reaches the primary's lease loop, but cannot
+		// be carried out (the renewal just before the hand-over fails). The node
+		// stays primary; when that term ends later the lease was NOT handed off
+		// and must be destroyed like any other.
+		n, w, ok := startPrimary()
+		if !ok {
+			return
+		}
+		defer w.close()
+		setBlock("n1", "acquire", errors.New("scripted: acquire unavailable"))
+		if err := cl.Start(1); err != nil || !cl.WaitConnected(1, 10*time.Second) {
+			c.Inconclusive("replica did not connect")
+			return
+		}
+		target := cl.Nodes[1]
+		o.mu.Lock()
+		failsBefore := o.renewFails["n0"]
+		o.mu.Unlock()
+		setBlock("n0", "renew", errors.New("scripted: renew unavailable"))
+		herr := n.Store.Handoff(context.Background(), target.Store.ID())
+		// the hand-over attempt is over once a renewal has failed after the request
+		if !o.waitFor(2*time.Second, func() bool { return o.renewFails["n0"] > failsBefore }) {
+			setBlock("n0", "renew", nil)
+			c.Inconclusive("no renewal was attempted during the hand-over window")
+			return
+		}
+		time.Sleep(30 * time.Millisecond)
+		setBlock("n0", "renew", nil)
+		for _, call := range cl.Svc.Calls() {
+			if call.Op == "acquire-existing" {
+				// the hand-over went through before the renewal failed: not this script's case
+				c.Count("handoff_completed_anyway", 1)
+				return
+			}
+		}
+		if !n.Store.IsPrimary() {
+			c.Count("handoff_window_lost_lease", 1)
+			return
+		}
+		c.Count("handoff_failed_still_primary", 1)
+		_ = herr
+		// the term ends
+		setBlock("n0", "acquire", errors.New("scripted: acquire unavailable"))
+		if variant%2 == 0 {
+			n.Store.Demote()
+		} else {
+			cl.Svc.Expire()
+		}
+		if !o.waitFor(8*time.Second, func() bool { return o.closed["n0"] > 0 }) {
+			c.Violate("C08/lease-not-destroyed-after-failed-handoff", "a handoff was requested but could not be carried out; when n0 later lost primary status it never destroyed its lease (it was not handed off)", detail())
+			return
+		}
+		if n.Store.IsPrimary() {
+			c.Violate("C08/still-primary-after-loss", "n0 reports primary after its term ended", detail())
+		}
+		if h, _ := cl.Svc.Holder(); h == "n0" && variant%2 == 0 {
+			c.Violate("C08/lease-not-destroyed-after-failed-handoff", "the service still records n0 as holder after the demotion that followed a failed handoff", detail())
+		}
+		c.Count("lease_closed_after_loss", 1)
+		c08AfterLoss(c, o, n, w, "after failed handoff and loss")
+		setBlock("n0", "acquire", nil)
 	case "handoff-chain":
 		// n0 -> n1 -> n0 (-> n1 ...): every handoff goes to the requested node only
 		n, w, ok := startPrimary()
